@@ -112,6 +112,36 @@ func (a *agg) add(c *Case, res *childResult) {
 	if rec == nil {
 		return
 	}
+	if its, ok := rec.Summary["iter_hashes"].([]any); ok {
+		// component simulation: one child = many iterations (bubbles)
+		a.evals += len(its) - 1
+		for _, h := range its {
+			if hs, ok := h.(string); ok {
+				a.hashes[hs] = true
+				a.nontrivial[hs] = true
+			}
+		}
+		for k, v := range rec.Faults {
+			a.faults[k] += v
+		}
+		for k, v := range rec.Probes {
+			a.probes[k] += v
+		}
+		for _, p := range rec.PairList {
+			a.pairs[p] = true
+		}
+		a.steps += int64(rec.Steps)
+		a.events += int64(rec.Events)
+		a.simNs += rec.SimNs
+		a.endReasons[rec.EndReason]++
+		a.anon += rec.Anon
+		if len(a.samples) < 3 {
+			if ss, ok := rec.Summary["samples"].([]any); ok && len(ss) > 0 {
+				a.samples = append(a.samples, map[string]any{"seed": c.Seed, "component": c.Scenario.Extra["comp"], "iteration_sample": ss[0]})
+			}
+		}
+		return
+	}
 	a.hashes[rec.Hash] = true
 	faults := 0
 	for k, v := range rec.Faults {
@@ -353,6 +383,13 @@ func reportViolation(prop string, f found) string {
 	tape := []int(nil)
 	if f.res != nil && f.res.rec != nil {
 		tape = f.res.rec.Tape
+	}
+	if f.res != nil && f.res.rec != nil && f.res.rec.Summary != nil {
+		if vi, ok := f.res.rec.Summary["viol_iter"].(float64); ok {
+			sc := cloneScenario(c.Scenario)
+			sc.Extra["only_iter"] = fmt.Sprint(int(vi))
+			c = &Case{Idx: c.Idx, Seed: c.Seed, Scenario: sc, Label: c.Label}
+		}
 	}
 	best := &Case{Idx: 100000 + c.Idx, Seed: c.Seed, Scenario: c.Scenario, Label: c.Label, Restart: c.Restart}
 	bestTape := tape
